@@ -70,6 +70,13 @@ func (r *EntityLocal) GetOrAddFeature(featureType model.FeatureTypeType, role mo
 	r.mux.Lock()
 	defer r.mux.Unlock()
 
+	// check again, another goroutine may have added the feature in the meantime
+	for _, f := range r.features {
+		if f.Type() == featureType && f.Role() == role {
+			return f
+		}
+	}
+
 	f := NewFeatureLocal(r.NextFeatureId(), r, featureType, role)
 
 	description := string(featureType)
